@@ -18,7 +18,7 @@ impl Group for E2eGroup {
     fn fixed(&self, _tier: &str) -> Vec<Case> {
         let l = |s: &str| Case { lines: vec![s.to_string()] };
         let all = vec![
-            l("e2e echo socks_ip 5000 2"), l("e2e echo socks_domain 100 1"), l("e2e echo direct 70000 3"),
+            l("e2e echo socks_ip 5000 2"), l("e2e echo socks_domain 100 1"), l("e2e echo direct 70000 3"), l("e2e echo http 20000 4"), l("e2e echo socks_ip 8192 5"), l("e2e echo http 8193 6"),
             l("e2e halfclose socks 1000"), l("e2e halfclose direct 10"), l("e2e targetclose socks 2000"),
             l("e2e refused socks"), l("e2e reuse 6"), l("e2e reaper"),
             l("e2e badpreamble bitflip"), l("e2e badpreamble random"), l("e2e badpreamble truncated"), l("e2e badpreamble good"),
@@ -29,7 +29,7 @@ impl Group for E2eGroup {
 
     fn generate(&self, rng: &mut Rng, _tier: &str, _idx: u64) -> Case {
         let line = match rng.below(10) {
-            0..=2 => format!("e2e echo {} {} {}", rng.pick(&["socks_ip", "socks_domain", "direct"]), rng.pick(&[1usize, 100, 8192, 65535, 65536, 200000]), rng.range(1, 9)),
+            0..=2 => format!("e2e echo {} {} {}", rng.pick(&["socks_ip", "socks_domain", "direct", "http"]), rng.pick(&[1usize, 100, 4096, 8191, 8192, 8193, 16384, 65535, 65536, 200000, 1000000]), rng.range(1, 9)),
             3 => format!("e2e halfclose {} {}", rng.pick(&["socks", "direct"]), rng.pick(&[0usize, 1, 5000, 200000])),
             4 => format!("e2e targetclose socks {}", rng.pick(&[0usize, 1, 5000, 200000])),
             5 => format!("e2e reuse {}", rng.range(2, 12)),
@@ -43,7 +43,7 @@ impl Group for E2eGroup {
             let only = std::env::var("VH_ONLY").unwrap_or_default();
             let first = only.split(',').next().unwrap_or("echo").to_string();
             let alt = match first.as_str() {
-                "echo" => format!("e2e echo {} {} {}", rng.pick(&["socks_ip", "socks_domain", "direct"]), rng.pick(&[1usize, 100, 8192, 65535, 65536, 200000]), rng.range(1, 9)),
+                "echo" => format!("e2e echo {} {} {}", rng.pick(&["socks_ip", "socks_domain", "direct", "http"]), rng.pick(&[1usize, 100, 4096, 8191, 8192, 8193, 16384, 65535, 65536, 200000, 1000000]), rng.range(1, 9)),
                 "halfclose" => format!("e2e halfclose {} {}", rng.pick(&["socks", "direct"]), rng.pick(&[0usize, 1, 5000, 200000])),
                 "targetclose" => format!("e2e targetclose socks {}", rng.pick(&[0usize, 1, 5000, 200000])),
                 "reuse" => format!("e2e reuse {}", rng.range(2, 12)),
@@ -125,6 +125,19 @@ async fn echo(via: &str, n: usize, k: u8) -> Res {
         "socks_ip" | "socks_domain" => {
             let ipb: Vec<u8> = ip.split('.').map(|x| x.parse::<u8>().unwrap()).collect();
             let mut s = if via == "socks_ip" { socks_connect(w.socks.unwrap(), 1, &ipb, target.addr.port()).await? } else { socks_connect(w.socks.unwrap(), 3, ip.as_bytes(), target.addr.port()).await? };
+            let d2 = data.clone();
+            let (mut rd, mut wr) = s.split();
+            let wfut = async { let _ = wr.write_all(&d2).await; };
+            let rfut = async { let mut out = vec![]; let mut buf = vec![0u8; 65536]; let dl = tokio::time::Instant::now() + GUARD; while out.len() < n { match tokio::time::timeout_at(dl, rd.read(&mut buf)).await { Ok(Ok(0)) | Err(_) | Ok(Err(_)) => break, Ok(Ok(x)) => out.extend_from_slice(&buf[..x]) } } out };
+            let (_, r) = tokio::join!(wfut, rfut);
+            got = r;
+        }
+        "http" => {
+            // CONNECT through the HTTP front-end, then the same echo through its relay loops
+            let mut s = tokio::net::TcpStream::connect(w.http.unwrap()).await.map_err(|e| e.to_string())?;
+            s.write_all(format!("CONNECT {}:{} HTTP/1.1\r\nHost: {}:{}\r\n\r\n", ip, target.addr.port(), ip, target.addr.port()).as_bytes()).await.map_err(|e| e.to_string())?;
+            let (rep, _) = read_n(&mut s, 39, Duration::from_secs(40)).await;
+            if !rep.starts_with(b"HTTP/1.1 200") { return Err(format!("CONNECT refused: {}", String::from_utf8_lossy(&rep))); }
             let d2 = data.clone();
             let (mut rd, mut wr) = s.split();
             let wfut = async { let _ = wr.write_all(&d2).await; };
